@@ -1122,8 +1122,8 @@ func lemmaCreateThenMapQueue(data []byte, cap uint32) {
 //@   loop 0 invariant[C01,C02,C01@mem,C02@mem] buffer.offsetInShm == old(buffer.offsetInShm) && buffer.bufferHeader == old(buffer.bufferHeader)
 //@   loop 0 invariant[C01,C02,C01@mem,C02@mem] mem32(b.bufferRegion, slotOf(b, buffer) + 4) == 0 && mem32(b.bufferRegion, slotOf(b, buffer) + 8) == 0 && mem8(b.bufferRegion, slotOf(b, buffer) + 16) == 0
 //@   loop 0 invariant[C01,C02,C01@mem,C02@mem] forall x in [0, len(b.bufferRegion)): (x < old(slotOf(b, buffer)) + 4 || x >= old(slotOf(b, buffer)) + 20) ==> mem8(b.bufferRegion, x) == old(mem8(b.bufferRegion, x))
-//@   loop 0 modifies[C01,C02,C01@mem,C02@mem] *b.tail
-//@   modifies buffer.writeIndex, buffer.readIndex, buffer.nextSlice, all(M), b.chain, b.pos, b.held, b.n
+//@   loop 0 modifies *b.tail
+//@   modifies buffer.writeIndex, buffer.readIndex, buffer.nextSlice, all(M), *b.tail, *b.size, *b.counter, b.chain, b.pos, b.held, b.n
 
 // ---------------------------------------------------------------------------
 // C10: stream close is final, propagates, reported at most once (stream.go)
